@@ -192,7 +192,7 @@ def report(prop, tier, seed, results, bounded, kf, known_by_id, wall, a):
     return code
 
 
-LEVELS = {}
+LEVELS = {"C08": "other", "C15": "other", "C16": "other"}
 EXPLAIN = {}
 
 if __name__ == "__main__":
